@@ -60,13 +60,19 @@ def conclude(pid, tier, level, histories, failures, rerun, coverage, t0, assumpt
     violations = []
     known_hits = {}
     flaky = 0
-    for k, f in sorted(reps.items(), key=lambda kv: kv[1].step)[:max_report * 3]:
+    unconfirmed_budget = max_report * 3
+    for k, f in sorted(reps.items(), key=lambda kv: kv[1].step):
         hist = histories[f.history]
         cmd = hist[f.step] if 0 <= f.step < len(hist) else None
         kf = match_known(pid, f, cmd, known)
         if kf:
             known_hits[kf["id"]] = kf
             continue
+        # every signature is matched against the known findings; only the re-runs are budgeted
+        if unconfirmed_budget <= 0:
+            violations.append((f, save_replay(pid, hist, f.step if f.prop != "CRASH" else None)))
+            continue
+        unconfirmed_budget -= 1
         # confirm on an immediate re-run of the same history (a flaky rejection is not reported)
         again = rerun(hist[:f.step + 1] if f.prop != "CRASH" else hist)
         again_first = vtrace.first_failures(again, pid)
